@@ -149,22 +149,28 @@ async fn run_write(rig: &Rig, case: u64, w: &World, me: u64, h: &Head, nadd: u64
     vec![local, node_in, adds_in, tombs_in]
 }
 
-fn gen_head(rng: &mut Rng, w: &World, me: u64, keys: &Keys, case: u64) -> Head {
-    let ent = 1 + rng.below(3);
+fn gen_head(rng: &mut Rng, w: &World, keys: &Keys, case: u64) -> (u64, Head) {
+    use discret::verif_hooks::database::room::RightType;
     let room = match rng.below(24) { 0 => None, 1 => Some(9), _ => Some(1 + rng.below(2)) };
-    let mut date = *rng.pick(&w.dates) + rng.range(0, 2);
-    // mostly a date at which the caller has a right on the entity in the room
-    if let Some(r) = room { if let Some(rm) = w.rooms.get(&cuid(case, r)) {
-        if rng.chance(3, 4) { for _ in 0..6 {
-            if rm.can(&keys.vk(me), &ent_name(ent), date, &discret::verif_hooks::database::room::RightType::MutateSelf) { break; }
-            date = *rng.pick(&w.dates) + rng.range(0, 2);
-        } }
-    } }
-    let old = if rng.chance(3, 5) {
-        let oroom = if room.is_none() { None } else { match rng.below(8) { 0 => None, 1..=5 => room, 6 => Some(9), _ => Some(1 + rng.below(2)) } };
-        Some((oroom, if rng.chance(1, 2) { me } else { 1 + rng.below(4) }))
-    } else { None };
-    Head { ent, room, date, has_node: !rng.chance(1, 30), too_big: rng.chance(1, 30), old }
+    let mut best = None;
+    // mostly a caller, an entity and a date such that the caller has the needed right in the room
+    // entered and in the room left
+    for attempt in 0..12 {
+        let me = 1 + rng.below(4);
+        let ent = 1 + rng.below(3);
+        let old = if rng.chance(3, 5) {
+            let oroom = if room.is_none() { None } else { match rng.below(10) { 0 => None, 1..=6 => room, 7 => Some(9), _ => Some(1 + rng.below(2)) } };
+            Some((oroom, if rng.chance(3, 5) { me } else { 1 + rng.below(4) }))
+        } else { None };
+        let date = *rng.pick(&w.dates) + rng.range(0, 2);
+        let right = match old { Some((_, a)) if a != me => RightType::MutateAll, _ => RightType::MutateSelf };
+        let ok = |r: Option<u64>| -> bool { match r.and_then(|x| w.rooms.get(&cuid(case, x))) { Some(rm) => rm.can(&keys.vk(me), &ent_name(ent), date, &right), None => r.is_none() } };
+        let good = ok(room) && ok(old.and_then(|o| o.0));
+        best = Some((me, ent, old, date));
+        if good || (attempt == 0 && rng.chance(1, 5)) { break; }
+    }
+    let (me, ent, old, date) = best.unwrap();
+    (me, Head { ent, room, date, has_node: !rng.chance(1, 30), too_big: rng.chance(1, 30), old })
 }
 
 // ------------------------------------------------------------------ deletions
@@ -266,7 +272,7 @@ fn jmodel() -> JModel {
 /// (text of the literal in the request, Gallina term of its kind)
 fn gen_lit(rng: &mut Rng, ty: &str) -> (String, String) {
     let strs = ["hello", "YWJj", "{\\\"a\\\":1}", "[1]", "5", "\\\"x\\\"", "null", "true", "1.5", "not json {"];
-    let matching = rng.chance(3, 4);
+    let matching = rng.chance(19, 20);
     let kind = if matching { match ty { "TBool" => 0, "TInt" => 1, "TFloat" => if rng.chance(1, 2) { 2 } else { 1 }, _ => 3 } } else { rng.below(4) };
     match kind {
         0 => (if rng.chance(1, 2) { "true".into() } else { "false".into() }, "LBool".into()),
@@ -275,7 +281,7 @@ fn gen_lit(rng: &mut Rng, ty: &str) -> (String, String) {
         _ => {
             let s = if matching { match ty {
                 "TBase64" => if rng.chance(4, 5) { "YWJj" } else { "hello" },
-                "TJson" => *rng.pick(&["{\\\"a\\\":1}", "[1]", "{\\\"a\\\":1}", "5", "\\\"x\\\"", "null", "true", "not json {"]),
+                "TJson" => *rng.pick(&["{\\\"a\\\":1}", "[1]", "{\\\"a\\\":1}", "[1]", "{\\\"a\\\":1}", "[1]", "{\\\"a\\\":1}", "[1]", "5", "\\\"x\\\"", "null", "true", "not json {"]),
                 _ => *rng.pick(&strs),
             } } else { *rng.pick(&strs) };
             let actual = s.replace("\\\"", "\"");
@@ -288,7 +294,7 @@ fn gen_lit(rng: &mut Rng, ty: &str) -> (String, String) {
 fn case_json(rng: &mut Rng, jm: &JModel, directed: Option<usize>) -> Case {
     let conn = rusqlite::Connection::open_in_memory().unwrap();
     prepare_connection(&conn).unwrap();
-    let (ename, fs) = match directed { Some(0) | Some(1) => &jm.ents[0], Some(2) => &jm.ents[3], _ => rng.pick(&jm.ents) };
+    let (ename, fs) = match directed { Some(0) | Some(1) => &jm.ents[0], Some(2) => &jm.ents[3], _ => &jm.ents[[0, 1, 2, 0, 1, 2, 0, 1, 2, 3][rng.below(10) as usize]] };
     let mut text = format!("mutate {{ {} {{ ", ename);
     let mut lits = vec![];
     for f in fs {
@@ -300,7 +306,8 @@ fn case_json(rng: &mut Rng, jm: &JModel, directed: Option<usize>) -> Case {
                 let c = rng.below(10);
                 // `null` for a Json field is not generated: MutationQuery::get_mutate_query panics on it
                 // (mutation_query.rs:294, the defect recorded under C14), there is no verdict to compare
-                if c <= 2 { if !f.nullable && f.default.is_none() && rng.chance(4, 5) { 5 } else { 0 } } else if c == 3 && f.ty != "TJson" { 1 } else { 5 }
+                if c <= 2 { if !f.nullable && f.default.is_none() && rng.chance(9, 10) { 5 } else { 0 } }
+                else if c == 3 && f.ty != "TJson" && rng.chance(1, 3) && (f.nullable || rng.chance(1, 4)) { 1 } else { 5 }
             }
         };
         match choice {
@@ -372,9 +379,8 @@ async fn main() {
         let mut r = rng.fork();
         match out.n % 9 {
             0..=3 => {
-                let me = 1 + r.below(4);
                 let w = world(&rig, case, gen_defs(&mut r)).await;
-                let h = gen_head(&mut r, &w, me, &rig.keys, case);
+                let (me, h) = gen_head(&mut r, &w, &rig.keys, case);
                 let nadd = if h.has_node { [0, 0, 1, 2][r.below(4) as usize] } else { 0 };
                 let rm: Vec<u64> = if h.old.is_some() && h.has_node { (0..[0, 0, 1, 2][r.below(4) as usize]).map(|_| if r.chance(2, 3) { me } else { 1 + r.below(4) }).collect() } else { vec![] };
                 let obs = run_write(&rig, case, &w, me, &h, nadd, &rm).await;
@@ -382,13 +388,20 @@ async fn main() {
                     meta: json!({"local": obs[0], "peer": &obs[1..], "create": h.old.is_none(), "move": h.old.map(|o| o.0 != h.room).unwrap_or(false), "adds": nadd, "removes": rm.len()}), obs });
             }
             4 | 5 => {
-                let me = 1 + r.below(4);
                 let w = world(&rig, case, gen_defs(&mut r)).await;
-                let now = *r.pick(&w.dates) + r.range(0, 2);
                 let auth_like = r.chance(1, 30);
-                let ent = 1 + r.below(3);
                 let room = match r.below(16) { 0 => None, 1 => Some(9), _ => Some(1 + r.below(2)) };
-                let author = if r.chance(1, 2) { me } else { 1 + r.below(4) };
+                let (mut me, mut now, mut ent, mut author) = (1, BASE, 1, 1);
+                for attempt in 0..12 {
+                    use discret::verif_hooks::database::room::RightType;
+                    me = 1 + r.below(4);
+                    now = *r.pick(&w.dates) + r.range(0, 2);
+                    ent = 1 + r.below(3);
+                    author = if r.chance(3, 5) { me } else { 1 + r.below(4) };
+                    let right = if author == me { RightType::MutateSelf } else { RightType::MutateAll };
+                    let good = match room.and_then(|x| w.rooms.get(&cuid(case, x))) { Some(rm) => rm.can(&rig.keys.vk(me), &ent_name(ent), now, &right), None => room.is_none() };
+                    if good || (attempt == 0 && r.chance(1, 5)) { break; }
+                }
                 if out.n % 9 == 4 {
                     let obs = run_del_node(&rig, case, &w, me, now, auth_like, ent, room, author).await;
                     out.push(Case { kind: "delete-row".into(), coq: format!("CDelNode {} {} {} {}", defs_coq(&w.defs), gn(me), gz(now), dnode_coq(auth_like, ent, room, author, now)),
